@@ -368,7 +368,8 @@ def base_chains(draw, max_res=40, min_res=2, allow_ball=True, max_atoms=1400, pr
 @st.composite
 def structures(draw, max_res=40, min_res=2, allow_ball=True, allow_hetero=True, allow_relabel=True,
                allow_mutation=True, multi_chain=None, max_atoms=1400, distinct_chain_ids=False,
-               allow_icode=True, protein=None, always_ter=False, allow_clash=True, allow_truncation=True):
+               allow_icode=True, protein=None, always_ter=False, allow_clash=True, allow_truncation=True,
+               ligand_copies=False):
     chains, labels, pname = draw(base_chains(max_res=max_res, min_res=min_res, allow_ball=allow_ball,
                                              max_atoms=max_atoms, protein=protein))
     if multi_chain is True and len(chains) < 2:
@@ -538,7 +539,7 @@ def structures(draw, max_res=40, min_res=2, allow_ball=True, allow_hetero=True, 
             labels.append("no-ter-break")
     # ---- hetero groups: library ligands and ions placed next to a drawn atom ----
     if allow_hetero:
-        nhet = draw(st.sampled_from([0, 0, 0, 1, 1, 2, 3]))
+        nhet = draw(st.sampled_from([2, 2, 3] if ligand_copies else [0, 0, 0, 1, 1, 2, 3]))
         prot_atoms = [a for a in entries if isinstance(a, Atom)]
         if prot_atoms and nhet:
             grid = Grid(prot_atoms)
@@ -546,10 +547,11 @@ def structures(draw, max_res=40, min_res=2, allow_ball=True, allow_hetero=True, 
             prev = None
             prev_anchor = None
             for _ in range(nhet):
-                if prev is not None and draw(st.integers(0, 2)) == 0:
+                if prev is not None and (ligand_copies or draw(st.integers(0, 3)) < (
+                        2 if prev[2].startswith("lig:") else 1)):
                     # a second copy of the same molecule in the same chain (labels of its groups then coincide)
                     resn, mol, kindl, hchain_prev = prev
-                elif draw(st.integers(0, 3)) == 0:
+                elif not ligand_copies and draw(st.integers(0, 3)) == 0:
                     resn = draw(st.sampled_from(sorted(IONS)))
                     mol = [(IONS[resn], 0, 0, 0)]
                     kindl = "ion:" + resn
@@ -588,6 +590,9 @@ def structures(draw, max_res=40, min_res=2, allow_ball=True, allow_hetero=True, 
                 if placed:
                     for a in placed:
                         grid.add(a)
+                    if any(r[0].resn == placed[0].resn for r in het_tail):
+                        labels.append("copy:same-chain" if any(r[0].resn == placed[0].resn and r[0].chain == hchain
+                                                               for r in het_tail) else "copy:other-chain")
                     het_tail.append(placed)
                     labels.append(kindl)
                     hnum += 1
